@@ -1,4 +1,5 @@
 mod c03;
+mod c05;
 mod c10;
 mod c15;
 mod c18;
@@ -20,6 +21,7 @@ macro_rules! dispatch {
     ($id:expr, $f:ident, $($arg:expr),*) => {
         match $id {
             "C03" => $f(&c03::C03, $($arg),*),
+            "C05" => $f(&c05::C05, $($arg),*),
             "C10" => $f(&c10::C10, $($arg),*),
             "C15" => $f(&c15::C15, $($arg),*),
             "C18" => $f(&c18::C18, $($arg),*),
@@ -61,7 +63,7 @@ fn main() {
             }
         }
         "list" => {
-            println!("C03\nC10\nC15\nC18");
+            println!("C03\nC05\nC10\nC15\nC18");
         }
         "run" => {
             if args.len() < 3 {
